@@ -76,6 +76,10 @@ def instances(tier, rng):
         for prim in (False, True):
             out.append(dict(name="%s/cycle/pr%d" % (nm, prim), fn="cycle", form="list", n=n, edges=es, mode="vars", primitive=prim))
         out.append(dict(name="%s/path/pr1" % nm, fn="path", form="list", n=n, edges=es, mode="vars", primitive=True))
+        for how in ("rev", "alt"):
+            for prim in (False, True):
+                out.append(dict(name="%s/cycle/pr%d/%s" % (nm, prim, how), fn="cycle", form="list", n=n, edges=E.orient(es, how), mode="vars",
+                                primitive=prim))
         if len(es) >= 2:
             for prim in (False, True):
                 out.append(dict(name="%s/cycle/pr%d/hist" % (nm, prim), fn="cycle", form="list", n=n, edges=es, mode="vars", primitive=prim,
